@@ -191,6 +191,16 @@ pub fn family_s() -> Vec<(String, Graph)> {
         out.push(("prod32+prod32_selfdef".into(), a.union(&b)));
         out.push(("prod16+prod32".into(), c.union(&a)));
     }
+    // k unattacked arguments attacking the same argument t, t -> u, u <-> v (several grounded members
+    // defeat the same argument; an undecided part remains), and the same with v self-attacking
+    for k in 2..=4usize {
+        let t = k;
+        let mut att: Vec<(usize, usize)> = (0..k).map(|i| (i, t)).collect();
+        att.extend([(t, t + 1), (t + 1, t + 2), (t + 2, t + 1)]);
+        out.push((format!("sources{}_tail", k), Graph::new(k + 3, &att)));
+        att.push((t + 2, t + 2));
+        out.push((format!("sources{}_tail_loop", k), Graph::new(k + 3, &att)));
+    }
     for n in 3..=7 {
         out.push((format!("ring{}", n), ring(n)));
     }
